@@ -59,7 +59,7 @@ def r2(ctx):
 
 def r3(ctx):
     ctx.rule('C35-R3', 'uniqueness: on every path to current_sources.push the popped address was tested against the active sources '
-             '(!current_sources.iter().any(|p| p.addr == addr)) after the pop, or known_ips is de-duplicated after every growth; NTS pool: '
+             '(!current_sources.iter().any(|p| p.addr == addr)) after the pop; NTS pool: '
              'push only past !contains_source(remote)')
     P = ctx.P
     b = P.body(POOL + '::try_spawn::{closure#0}')
@@ -67,8 +67,10 @@ def r3(ctx):
     pop = one(b.calls(r'Vec::pop$'), 'known_ips.pop')
     uniq = fact_call(r'::any$', False, [r'^slice::iter\(Vec::deref\(self\.current_sources\)\)$|^slice::iter\(self\.current_sources\)$'], names=True)
     tested = any(fs and all(uniq(f) for f in fs) and b.can_reach(pop.bb, s0) for (s0, d0, fs) in b.edges()) and b.must_pass(push.bb, uniq)
-    dedup = [s for s in b.calls(r'Vec::(dedup|dedup_by|dedup_by_key)$|HashSet|BTreeSet') if 'known_ips' in N(b.call_args(s)[0])]
-    ctx.check('pool|push|address-not-active', tested or bool(dedup),
+    # de-duplicating known_ips is not accepted as a substitute: Vec::dedup only removes adjacent repeats, and an address
+    # can become active after the list was last filtered; only the comparison of the popped address with the active sources decides
+    dedup = [s for s in b.calls(r'Vec::(dedup|dedup_by|dedup_by_key)$') if 'known_ips' in N(b.call_args(s)[0])]
+    ctx.check('pool|push|address-not-active', tested,
               'two active sources for one address are possible: duplicates inside known_ips (a DNS answer listing an address twice, or left-over '
               'entries plus an overlapping fresh lookup) are popped and pushed without comparing the popped address with the active sources',
               push.where(), sample={'post-pop-test': tested, 'dedup': len(dedup)})
